@@ -44,6 +44,10 @@ class Entry:
         self.vis_pub = kw.pop('vis_pub', True)
         self.nodecreases = kw.pop('nodecreases', False)
         self.qualname = kw.pop('qualname', None) or self.name
+        self.exec_const = kw.pop('exec_const', None)   # D10: ensures text for `exec const`
+        self.const_proof = kw.pop('const_proof', None) # ghost block placed before the initialiser
+        self.all_loops = kw.pop('all_loops', None)     # invariant text applied to every loop without its own
+        self.depth = kw.pop('depth', 0)                # brace depth at which the item sits (nested inline modules)
         if kw:
             raise TypeError('unknown options %s' % list(kw))
         # filled by generate()
@@ -75,13 +79,36 @@ class FileCtx:
             name, kw = m
             kw = dict(kw)
             kw.setdefault('qualname', '%s::%s' % (re.sub(r'\W+', '_', header).strip('_') if ' ' in header else header, name))
-            e = Entry(kind='fn', name=name, file=self.rel, impl=header, **kw)
+            knd = kw.pop('kind', 'fn')
+            e = Entry(kind=knd, name=name, file=self.rel, impl=header, **kw)
             grp.methods.append(e)
         self.unit.entries.append(grp)
         return grp
 
     def raw(self, text, note=''):
         self.unit.entries.append(Raw(text, note))
+
+    def all_fns(self, default, overrides=None, skip=()):
+        """every top-level fn of the file, in source order (so a function added by an edit is
+        picked up with the default contract); `default` is a callable name -> kwargs."""
+        import os
+        rf = RustFile(os.path.join(REPO, self.rel))
+        overrides = overrides or {}
+        seen = set()
+        for name in rf.list_fns(None, 0):
+            if name in skip or name in seen:
+                continue
+            seen.add(name)
+            # skip #[test] functions
+            it = rf.find_fn(name, None, 0)
+            if any(a.startswith('#[test') or a.startswith('#[cfg(test') for a in it['attrs']):
+                continue
+            kw = dict(default(name, rf.src[it['header_start']:it['sig_end']]))
+            kw.update(overrides.get(name, {}))
+            self.fn(name, **kw)
+        missing = set(overrides) - seen
+        if missing:
+            raise Undecided('functions under contract not found in %s: %s' % (self.rel, sorted(missing)))
 
     def guard(self, fn, expected, impl=None, why=''):
         """text guard: a function that is NOT verified but whose (comment-stripped, whitespace-
@@ -225,10 +252,22 @@ class Unit:
                 emit_text('impl ' + _impl_header_text(impls[0]['header']) + ' {')
                 for blk in impls:   # associated types / consts of the impl are copied too
                     d1 = rf.depth[blk['body_open']] + 1
-                    for m_ in rf.code_finditer(r'(?m)^[ \t]*((?:pub\s+)?(?:type|const)\s+\w+[^;{]*;)', blk['body_open'], blk['end']):
-                        if rf.depth[m_.start(1)] == d1:
+                    for m_ in rf.code_finditer(r'(?m)^[ \t]*((?:pub(?:\([^)]*\))?\s+)?(?:type|const)\s+\w+[^;{]*;)', blk['body_open'], blk['end']):
+                        if rf.depth[m_.start(1)] == d1 and not any(getattr(mm, 'kind', '') == 'const' and re.search(r'\bconst\s+%s\b' % re.escape(mm.name), m_.group(1)) for mm in e.methods):
                             emit_text('    ' + m_.group(1))
                 for m in e.methods:
+                    if m.kind == 'const':
+                        it = None
+                        for blk in impls:
+                            try:
+                                it = rf.find_simple_item('const', m.name, (blk['body_open'] + 1, blk['end'] - 1), rf.depth[blk['body_open']] + 1)
+                                break
+                            except KeyError:
+                                continue
+                        if it is None:
+                            raise Undecided('const %s of impl %s not found in %s' % (m.name, e.header, e.file))
+                        self._emit_const(rf, m, it, out)
+                        continue
                     found = None
                     for blk in impls:
                         try:
@@ -243,7 +282,7 @@ class Unit:
             elif e.kind == 'fn':
                 rf = self._rf(e.file)
                 try:
-                    found = rf.find_fn(e.name, None, 0)
+                    found = rf.find_fn(e.name, None, e.depth)
                 except KeyError as ex:
                     raise Undecided(str(ex))
                 self._emit_fn(rf, e, found, out)
@@ -255,9 +294,32 @@ class Unit:
         linemap = [o for _, o in out]
         return text, linemap
 
+    def _emit_const(self, rf, e, it, out):
+        """D10: `[vis] const NAME: T = E;` -> `pub exec const NAME: T ensures .. { E }` (E unchanged)"""
+        text = rf.src[it['header_start']:it['end']]
+        e.orig_start_line = rf.line_of(it['header_start'])
+        text = self._apply_rewrites(e, text)
+        m = re.match(r'(?:pub(?:\([^)]*\))?\s+)?const\s+(\w+)\s*:\s*([^=]+?)\s*=\s*(.*);\s*$', text, re.S)
+        if not m:
+            raise Undecided('cannot parse const %s in %s' % (e.name, e.file))
+        name, ty, init = m.group(1), m.group(2), m.group(3)
+        ens = (e.exec_const or 'ensures true,').strip()
+        pf = ('proof { %s } ' % e.const_proof) if e.const_proof else ''
+        lines = ['pub exec const %s: %s' % (name, ty), '    ' + ens, '{ ' + pf + init + ' }']
+        k = 0
+        for ln in '\n'.join(lines).split('\n'):
+            out.append((ln, (e, e.orig_start_line)))
+        self.desugar_log.append(('D10', 'const %s -> exec const with ensures (initialiser unchanged)' % name))
+
     # -- items other than fns
     def _emit_item(self, e, out):
         rf = self._rf(e.file)
+        if e.kind == 'const' and e.exec_const is not None:
+            try:
+                it = rf.find_simple_item('const', e.name)
+            except KeyError as ex:
+                raise Undecided(str(ex))
+            return self._emit_const(rf, e, it, out)
         try:
             if e.kind in ('struct', 'enum', 'macro_rules', 'trait', 'union'):
                 it = rf.find_block_item(e.kind, e.name)
@@ -329,10 +391,14 @@ class Unit:
         if e.ret:
             sig, _ = name_return(sig, e.ret)
         # loops (ordinals refer to the body after desugaring)
-        if e.loops:
+        if e.loops or e.all_loops:
             loops = find_loops(body)
             ins = []
-            for ordn, spec in e.loops.items():
+            lspecs = dict(e.loops)
+            if e.all_loops:
+                for k_ in range(1, len(loops) + 1):
+                    lspecs.setdefault(k_, e.all_loops)
+            for ordn, spec in lspecs.items():
                 if ordn < 1 or ordn > len(loops):
                     raise Undecided('loop %d of %s not found (function has %d loops)' % (ordn, e.qualname, len(loops)))
                 kwoff, broff, kw = loops[ordn - 1]
@@ -382,6 +448,7 @@ class Unit:
         spec = ('\n' + _indent(e.spec.strip('\n'), 4) + '\n') if e.spec else ' '
         if e.trusted:
             body = '{ unimplemented!() }'
+            sig = re.sub(r'([(,]\s*)mut\s+', r'\1', sig)   # `mut` bindings of by-value params are body-local
         new_text = sig.rstrip() + spec + body
         # origin per generated line: match against original lines
         olines = orig_text.split('\n')
@@ -483,6 +550,7 @@ def twin_for_entry(e, sig_text):
     req = m.group(1).strip().rstrip(',')
     if not req:
         return None
+    sig_text = _strip_comments(sig_text)
     pm = re.search(r'\bfn\s+\w+\s*(<[^()]*>)?\s*\(', sig_text)
     if not pm:
         return None
